@@ -185,7 +185,7 @@ def generate(rng, tier):
         yield "amf0 enc 2 T O2 61 N%016x %s A1 S%s" % (rng.next(), hexs(s), hexs(b"tail"))
     yield "amf0 enc 1 O2 %s Z - T" % hexs(b"a" * 65536)      # two different refusals in one object
     # --- element / property counts around powers of two and decimal round numbers (a decoder that caps or truncates a count) ---
-    for n in (255, 256, 257, 1000, 1023, 1024, 1025, 3000, 4096, 4097, 65535, 65536, 65537):
+    for n in (255, 256, 257, 1000, 1023, 1024, 1025, 3000, 4096, 4097) + ((65535, 65536, 65537) if tier == "thorough" else ()):   # the model needs ~1 min for each 2^16 case
         yield "amf0 enc " + show_all([("A", [("Z",)] * n), ("Z",)])
         if n <= 4097:
             yield "amf0 enc " + show_all([("O", [(b"k", ("A", [("N", rng.next())] * n)), (b"t", ("S", b"tail"))]), ("B", True)])
